@@ -32,6 +32,23 @@ class Keep(claripy.Annotation):
         return isinstance(o, Keep) and o.n == self.n
 
 
+class HybridApprox(claripy.SolverHybrid):
+    """SolverHybrid queried through its approximating (VSA) path"""
+
+    def is_true(self, e, extra_constraints=(), exact=None):
+        return super().is_true(e, extra_constraints=extra_constraints, exact=False)
+
+    def is_false(self, e, extra_constraints=(), exact=None):
+        return super().is_false(e, extra_constraints=extra_constraints, exact=False)
+
+
+APPROX = (claripy.SolverVSA, HybridApprox)
+# constraints of an approximating frontend go through constraint_to_si; whether the bounds it derives cut off models is
+# property C25's subject and is decided there (C25 witness found here: x[1:0] == 2 bounds x to {2}).  Until that check
+# reports the tree clean, C10 queries the approximating frontends without constraints.
+APPROX_WITH_CONSTRAINTS = False
+
+
 def build_unfolded(t, rng, p, ctr):
     """build with Keep annotations sprinkled on constants so that concrete sub-trees stay unfolded"""
     r = E.build_leaf(t)
@@ -167,14 +184,21 @@ def run(ctx):
         agree += 1
     conc._true_cache.clear(); conc._false_cache.clear()
     # ---- solver level: True only if it holds in every model of the constraints (+ extra constraints)
-    for cls in (claripy.Solver, claripy.SolverCacheless, claripy.SolverComposite, claripy.SolverHybrid, claripy.SolverReplacement):
+    for cls in (claripy.Solver, claripy.SolverCacheless, claripy.SolverComposite, claripy.SolverHybrid, claripy.SolverReplacement, claripy.SolverVSA,
+                HybridApprox):
         for it in range(ctx.pick(12, 150)):
             w = 3
             x, y = claripy.BVS("sx", w, explicit_name=True), claripy.BVS("sy", w, explicit_name=True)
             atoms = [claripy.ULT(x, rng.randrange(8)), x == rng.randrange(8), x + y == rng.randrange(8), claripy.UGE(y, rng.randrange(8)),
                      x != y, claripy.SLT(x, y), (x & 1) == 0, claripy.Or(x == 1, y == 2)]
+            # Boolean (dis)equalities and tautologies/contradictions an abstract backend may be tempted to decide
+            atoms += [rng.choice(atoms) == rng.choice(atoms), rng.choice(atoms) != rng.choice(atoms), rng.choice(atoms) != claripy.true(),
+                      claripy.false() == rng.choice(atoms), claripy.UGE(x, 0), claripy.ULT(x, 0), claripy.And(rng.choice(atoms), rng.choice(atoms)),
+                      x.zero_extend(2) == x.sign_extend(2), claripy.If(rng.choice(atoms), x, y) == x]
             cons = rng.sample(atoms, rng.choice([0, 1, 2]))
             extra = rng.sample(atoms, rng.choice([0, 0, 1]))
+            if cls in APPROX and not APPROX_WITH_CONSTRAINTS:
+                cons, extra = [], []
             s = cls()
             try:
                 s.add(cons)
